@@ -152,7 +152,8 @@ def conv_num(fr):
     if src is None or fr['result'] is None:
         return None
     regexes = list(ext.regexes)
-    fi = [c for c in fr['calls'] if c[0] == 'finditer']
+    negp = ext._negative_number_terms
+    fi = [c for c in fr['calls'] if c[0] == 'finditer' and not (negp is not None and c[1] is negp)]
     blank = len(src.strip()) == 0
     if blank:
         main = []
@@ -166,12 +167,19 @@ def conv_num(fr):
         if r.val not in vals:
             vals.append(r.val)
     ms = [(m.start(), len(m.group()), vals.index(regexes[i].val)) for i, c in enumerate(main) for m in c[3]]
-    negp = ext._negative_number_terms
     negs = []
     if negp is not None:
+        # what the code took as the negative-term match for the run starting at len(prefix): the result of
+        # regex.search (current code) or, when the code scans with finditer, the match ending at the run
         for c in fr['calls']:
-            if c[0] == 'search' and c[1] is negp and c[3] is not None:
+            if c[1] is not negp:
+                continue
+            if c[0] == 'search' and c[3] is not None:
                 negs.append((len(c[2]), c[3].start(), c[3].end()))
+            elif c[0] == 'finditer':
+                m = next((m for m in c[3] if m.end() == len(c[2])), None)
+                if m is not None:
+                    negs.append((len(c[2]), m.start(), m.end()))
     ambs = [[(m.start(), m.end()) for m in c[3]] for c in fi[len(main):]]
     op = '\t'.join(['sp.num', cps(src), fmt_items(ms), fmt_items(negs),
                     '|'.join(fmt_items(a) for a in ambs) if ambs else '_'])
@@ -335,8 +343,10 @@ def conv_addto(fr):
         tags.setdefault(oid, i)
     op = '\t'.join(['sp.addto', fmt_items([(s, l, tags[o]) for s, l, o in dst]),
                     fmt_items([(s, l, tags[o]) for s, l, o in src])])
-    out = fr['raw']
-    impl = ';'.join('%d:%d:%s' % (e.start, e.length, tags.get(id(e), 'x')) for e in out)
+    # the snapshot taken when the call returned: add_to returns the destinations list itself, which later calls
+    # append to in place
+    out = fr['result']
+    impl = ';'.join('%d:%d:%s' % (e['start'], e['length'], tags.get(e['id'], 'x')) for e in out)
     opts = getattr(fr['args'][0], 'options', 0)
     try:
         from recognizers_date_time.date_time.utilities import DateTimeOptions
